@@ -181,6 +181,14 @@ def gen_program(rng, size=None):
 # ---------------------------------------------------------------------------
 # comment edits
 
+def py_split(text):
+    """node_visitor._split_lines without the re-added newline: the lines of the model's file."""
+    parts = re.split(r"\r\n|\r|\n", text)
+    if parts and parts[-1] == "":
+        parts.pop()
+    return parts
+
+
 def render(lines, style):
     """style: (eol, final_newline).  CPython compiles all of them to the same line numbering."""
     eol, final = style
@@ -755,7 +763,7 @@ def run(tier: str, replay: str | None = None):
                             "text": v["new_lines"], "baseline": [list(d) for d in d0], "observed": r["out"], **bad})
 
     for si, (fid, vt, nt) in enumerate(specials):
-        queue_model(("special", si), vt.splitlines(), base_cfg, special_res[("special_v", si)])
+        queue_model(("special", si), py_split(vt), base_cfg, special_res[("special_v", si)])
 
     # 5. correspondence: model vs implementation on the recorded raw streams
     corr_mismatch = []
